@@ -349,8 +349,13 @@ theorem barBody_live (o : Orc) (tag : Nat) {h : Heap} {s : Nat} (num den : Int) 
   unfold barFinish addRel
   exact (relLive_invalidateAbs (relLive_withRel o (relLive_newMsg (relLive_overwriteRel _ _ _) _) (viewLevel_insert _ _))).seqLive
 
-/-- a bar that `Bar.copy` can copy: it exists, its sequence exists and satisfies `SeqCopyOk` -/
-def BarOk (h : Heap) (b : Nat) : Prop := b < h.nBar ∧ (h.bar b).seq < h.nSeq ∧ SeqCopyOk h (h.bar b).seq
+/-- a bar that `Bar.copy` can copy, in the state every public constructor and in-place mutator of the relative view leaves it
+    in: it exists, its sequence exists and satisfies `SeqCopyOk`, and the RELATIVE VIEW of its sequence IS NOT STALE — `Bar.copy`
+    reads it through `self.sequence.rel` (bar.py:59), which is then a plain read.  (For a stale relative view the read
+    regenerates it in the SOURCE: `HeapOps.barCopy` models that — `readRel` —, the region theorems of C16c cover it
+    (`derive_fresh_barCopy`), the equality with the translation is proved for the fresh case only.) -/
+def BarOk (h : Heap) (b : Nat) : Prop :=
+  b < h.nBar ∧ (h.bar b).seq < h.nSeq ∧ SeqCopyOk h (h.bar b).seq ∧ (h.seq (h.bar b).seq).relStale = false
 
 /-- a bar whose sequence exists and can be read through `rel` -/
 def NewBarOk (h : Heap) (b : Nat) : Prop := b < h.nBar ∧ (h.bar b).seq < h.nSeq ∧ SeqLive h (h.bar b).seq
@@ -363,20 +368,39 @@ theorem SeqCopyOk.ext {h h' : Heap} (e : Ext h h') {s : Nat} (hs : s < h.nSeq) (
 theorem BarOk.ext {h h' : Heap} (e : Ext h h') {b : Nat} (hok : BarOk h b) : BarOk h' b := by
   unfold BarOk
   rw [e.bar hok.1]
-  exact ⟨Nat.lt_of_lt_of_le hok.1 (e.1 .bar), Nat.lt_of_lt_of_le hok.2.1 (e.1 .seq), hok.2.2.ext e hok.2.1⟩
+  exact ⟨Nat.lt_of_lt_of_le hok.1 (e.1 .bar), Nat.lt_of_lt_of_le hok.2.1 (e.1 .seq), hok.2.2.1.ext e hok.2.1,
+    by rw [e.seq hok.2.1]; exact hok.2.2.2⟩
 
 theorem NewBarOk.ext {h h' : Heap} (e : Ext h h') {b : Nat} (hok : NewBarOk h b) : NewBarOk h' b := by
   unfold NewBarOk SeqLive
   rw [e.bar hok.1, e.seq hok.2.1]
   exact ⟨Nat.lt_of_lt_of_le hok.1 (e.1 .bar), Nat.lt_of_lt_of_le hok.2.1 (e.1 .seq), hok.2.2⟩
 
+/-- reading a relative view that is not stale changes nothing -/
+theorem readRel_of_fresh (o : Orc) {h : Heap} {s : Nat} (hf : (h.seq s).relStale = false) : readRel o h s = h := by
+  simp [readRel, getRel, hf]
+
+/-- `Bar.copy()` of a bar whose relative view is not stale: copy the sequence, construct a bar on the copy -/
+theorem barCopy_of_fresh (o : Orc) (tag : Nat) {h : Heap} {b : Nat} (hf : (h.seq (h.bar b).seq).relStale = false) :
+    HeapOps.barCopy o tag h b
+      = HeapOps.barInit o tag (seqCopy h (h.bar b).seq).1 (seqCopy h (h.bar b).seq).2 (h.bar b).num (h.bar b).den (h.bar b).key := by
+  rw [HeapL.barCopy_eq, readRel_of_fresh o hf]
+
+/-- … and then it respects every good region with no hypothesis on the source (nothing that existed is written) -/
+theorem barCopy_spec_fresh {X : HeapL.Region} (o : Orc) (tag : Nat) {h : Heap} {b : Nat} (hg : HeapL.Good X h)
+    (hf : (h.seq (h.bar b).seq).relStale = false) :
+    HeapL.Spec X h (HeapOps.barCopy o tag h b).1 ∧ HeapL.In X (HeapOps.barCopy o tag h b).1 (.bar, (HeapOps.barCopy o tag h b).2) := by
+  rw [barCopy_of_fresh o tag hf]
+  exact HeapL.barCopyFrom_spec (o := o) hg tag _ _ _ _
+
 theorem barCopy_post (o : Orc) (tag : Nat) {h : Heap} {b : Nat} (hok : BarOk h b) :
     Ext h (HeapOps.barCopy o tag h b).1 ∧ NewBarOk (HeapOps.barCopy o tag h b).1 (HeapOps.barCopy o tag h b).2 := by
-  obtain ⟨sp, hin⟩ := HeapL.barCopy_spec (o := o) (HeapL.good_fresh h) tag b
+  obtain ⟨sp, hin⟩ := barCopy_spec_fresh o tag (HeapL.good_fresh h) hok.2.2.2
   have hseqin := HeapL.bar_seq_in sp.good hin
   refine ⟨Ext.of_spec sp, hin.2, hseqin.2, ?_⟩
-  have hlive := seqCopy_live h (h.bar b).seq hok.2.2
-  unfold HeapOps.barCopy HeapOps.barInit
+  have hlive := seqCopy_live h (h.bar b).seq hok.2.2.1
+  rw [barCopy_of_fresh o tag hok.2.2.2]
+  unfold HeapOps.barInit
   simp only [barBody_bar, newBar_snd, bar_newBar]
   exact barBody_live o tag (h := ((seqCopy h (h.bar b).seq).1.newBar
       { seq := (seqCopy h (h.bar b).seq).2, num := (h.bar b).num, den := (h.bar b).den, key := (h.bar b).key }).1)
@@ -384,13 +408,18 @@ theorem barCopy_post (o : Orc) (tag : Nat) {h : Heap} {b : Nat} (hok : BarOk h b
 
 /-! ## `Track.copy`, `Composition.copy` -/
 
-theorem barCopy_run (g : GOrc) (tag b : Nat) (h : Heap) (hok : SeqCopyOk h (h.bar b).seq) :
+theorem barCopy_run (g : GOrc) (tag b : Nat) (h : Heap) (hok : SeqCopyOk h (h.bar b).seq)
+    (hf : (h.seq (h.bar b).seq).relStale = false) :
     Gen.HeapFns.barCopy g tag b h
       = (.ok (HeapOps.barCopy (orcOf g) tag h b).2, (HeapOps.barCopy (orcOf g) tag h b).1) := by
-  unfold Gen.HeapFns.barCopy HeapOps.barCopy
+  rw [barCopy_of_fresh (orcOf g) tag hf]
+  unfold Gen.HeapFns.barCopy
   have hlive := seqCopy_live h (h.bar b).seq hok
-  simp only [run_bind, run_get, bindRes_ok, sequenceCopy_run g tag _ h hok, newBarObj, run_alloc, newBar_snd, seqCopy_bar,
-    barNew_run g tag _ _ _ _ _ hlive, run_pure]
+  obtain ⟨r, hr, _⟩ := hok.2 hf
+  have hrel : sequenceRel g tag (h.bar b).seq h = (.ok (some r), h) := by
+    rw [sequenceRel_run]; simp [hf, hr, getRel]
+  simp only [run_bind, run_get, bindRes_ok, hrel, run_deref_some, sequenceCopy_run g tag _ h hok, newBarObj, run_alloc, newBar_snd,
+    seqCopy_bar, barNew_run g tag _ _ _ _ _ hlive, run_pure]
   rfl
 
 theorem barCopies_post (o : Orc) : ∀ (bs : List Nat) (tag : Nat) (h : Heap), (∀ b ∈ bs, BarOk h b) →
@@ -420,7 +449,25 @@ theorem mapTag_barCopy (g : GOrc) : ∀ (bs : List Nat) (tag : Nat) (h : Heap), 
     intro tag h hok
     obtain ⟨e1, _⟩ := barCopy_post (orcOf g) tag (hok b (by simp))
     have hrest := ih (mix tag 3) _ (fun b' hb' => (hok b' (by simp [hb'])).ext e1)
-    simp only [HM.mapTag, run_bind, barCopy_run g tag b h (hok b (by simp)).2.2, bindRes_ok, run_pure, hrest, barCopies]
+    simp only [HM.mapTag, run_bind, barCopy_run g tag b h (hok b (by simp)).2.2.1 (hok b (by simp)).2.2.2, bindRes_ok, run_pure, hrest, barCopies]
+
+/-- `[bar.copy() for bar in bars]` of bars whose relative views are not stale respects every good region -/
+theorem barCopies_spec_ok {X : HeapL.Region} (o : Orc) : ∀ (bs : List Nat) (tag : Nat) (h : Heap), HeapL.Good X h → (∀ b ∈ bs, BarOk h b) →
+    HeapL.Spec X h (barCopies o tag h bs).1 ∧ ∀ nb ∈ (barCopies o tag h bs).2, HeapL.In X (barCopies o tag h bs).1 (.bar, nb) := by
+  intro bs
+  induction bs with
+  | nil => intro tag h hg _; exact ⟨HeapL.Spec.refl hg, by simp [barCopies]⟩
+  | cons b bs ih =>
+    intro tag h hg hok
+    obtain ⟨s1, i1⟩ := barCopy_spec_fresh (X := X) o tag hg (hok b (by simp)).2.2.2
+    obtain ⟨e1, _⟩ := barCopy_post o tag (hok b (by simp))
+    obtain ⟨s2, i2⟩ := ih (mix tag 3) _ s1.good (fun b' hb' => (hok b' (by simp [hb'])).ext e1)
+    refine ⟨s1.trans s2, ?_⟩
+    intro c hc
+    simp only [barCopies, List.mem_cons] at hc
+    rcases hc with rfl | hc
+    · exact i1.mono s2.pres
+    · exact i2 c hc
 
 /-- a track that `Track.copy` can copy: it exists and its bars satisfy `BarOk` -/
 def TrkOk (h : Heap) (t : Nat) : Prop := t < h.nTrk ∧ ∀ b ∈ (h.trk t).bars, BarOk h b
@@ -441,8 +488,15 @@ theorem trackCopy_run (g : GOrc) (tag t : Nat) (h : Heap) (hok : TrkOk h t) :
     trackNew_run g (mix tag 4) _ _ _ (fun b hb => (hn b hb).2), run_pure]
   rfl
 
-theorem trkCopy_ext (o : Orc) (tag : Nat) (h : Heap) (t : Nat) : Ext h (trkCopy o tag h t).1 :=
-  Ext.of_spec (HeapL.trkCopy_spec (o := o) (HeapL.good_fresh h) tag t).1
+/-- `Track.copy()` of a track whose bars' relative views are not stale respects every good region -/
+theorem trkCopy_spec_ok {X : HeapL.Region} (o : Orc) (tag : Nat) {h : Heap} {t : Nat} (hg : HeapL.Good X h) (hok : TrkOk h t) :
+    HeapL.Spec X h (trkCopy o tag h t).1 ∧ HeapL.In X (trkCopy o tag h t).1 (.trk, (trkCopy o tag h t).2) := by
+  obtain ⟨s1, i1⟩ := barCopies_spec_ok (X := X) o (h.trk t).bars tag h hg hok.2
+  obtain ⟨s2, i2⟩ := HeapL.trkInit_spec (o := o) s1.good (mix tag 4) _ (h.trk t).name i1
+  exact ⟨s1.trans s2, i2⟩
+
+theorem trkCopy_ext (o : Orc) (tag : Nat) (h : Heap) (t : Nat) (hok : TrkOk h t) : Ext h (trkCopy o tag h t).1 :=
+  Ext.of_spec (trkCopy_spec_ok o tag (HeapL.good_fresh h) hok).1
 
 /-- `[track.copy() for track in tracks]` is `trkCopies` (tags `tag`, `mix tag 5`, …) -/
 theorem mapTag_trackCopy (g : GOrc) : ∀ (ts : List Nat) (tag : Nat) (h : Heap), (∀ t ∈ ts, TrkOk h t) →
@@ -453,7 +507,7 @@ theorem mapTag_trackCopy (g : GOrc) : ∀ (ts : List Nat) (tag : Nat) (h : Heap)
   | nil => intro tag h _; rfl
   | cons t ts ih =>
     intro tag h hok
-    have e1 := trkCopy_ext (orcOf g) tag h t
+    have e1 := trkCopy_ext (orcOf g) tag h t (hok t (by simp))
     have hrest := ih (mix tag 5) _ (fun t' ht' => (hok t' (by simp [ht'])).ext e1)
     simp only [HM.mapTag, run_bind, trackCopy_run g tag t h (hok t (by simp)), bindRes_ok, run_pure, hrest, trkCopies]
 
@@ -501,5 +555,29 @@ theorem seqCopyOk_iff (h : Heap) (s : Nat) :
 instance (h : Heap) (s : Nat) : Decidable (SeqCopyOk h s) := decidable_of_iff _ (seqCopyOk_iff h s).symm
 instance (h : Heap) (b : Nat) : Decidable (BarOk h b) := by unfold BarOk; infer_instance
 instance (h : Heap) (t : Nat) : Decidable (TrkOk h t) := by unfold TrkOk; infer_instance
+
+theorem trkCopies_spec_ok {X : HeapL.Region} (o : Orc) : ∀ (ts : List Nat) (tag : Nat) (h : Heap), HeapL.Good X h → (∀ t ∈ ts, TrkOk h t) →
+    HeapL.Spec X h (trkCopies o tag h ts).1 ∧ ∀ nt ∈ (trkCopies o tag h ts).2, HeapL.In X (trkCopies o tag h ts).1 (.trk, nt) := by
+  intro ts
+  induction ts with
+  | nil => intro tag h hg _; exact ⟨HeapL.Spec.refl hg, by simp [trkCopies]⟩
+  | cons t ts ih =>
+    intro tag h hg hok
+    obtain ⟨s1, i1⟩ := trkCopy_spec_ok (X := X) o tag hg (hok t (by simp))
+    have e1 := trkCopy_ext o tag h t (hok t (by simp))
+    obtain ⟨s2, i2⟩ := ih (mix tag 5) _ s1.good (fun t' ht' => (hok t' (by simp [ht'])).ext e1)
+    refine ⟨s1.trans s2, ?_⟩
+    intro c hc
+    simp only [trkCopies, List.mem_cons] at hc
+    rcases hc with rfl | hc
+    · exact i1.mono s2.pres
+    · exact i2 c hc
+
+/-- `Composition.copy()` of a composition whose bars' relative views are not stale respects every good region -/
+theorem cmpCopy_spec_ok {X : HeapL.Region} (o : Orc) (tag : Nat) {h : Heap} {c : Nat} (hg : HeapL.Good X h) (hok : ∀ t ∈ h.cmp c, TrkOk h t) :
+    HeapL.Spec X h (cmpCopy o tag h c).1 ∧ HeapL.In X (cmpCopy o tag h c).1 (.cmp, (cmpCopy o tag h c).2) := by
+  obtain ⟨s1, i1⟩ := trkCopies_spec_ok (X := X) o (h.cmp c) tag h hg hok
+  obtain ⟨s2, i2, _⟩ := HeapL.newCmp_spec s1.good _ i1
+  exact ⟨s1.trans s2, i2⟩
 
 end SCoda.HeapTieL
